@@ -204,8 +204,18 @@ impl SendRateComp {
         // for a "new loss event or an increase in the loss event rate p"
         let loss_increase = loss_rate > self.prev_loss_rate;
 
+        // The very first feedback carries no receive rate measurement (there is no interval to
+        // measure over yet; it is reported as 0). It neither limits the send rate nor enters the
+        // receive rate set, which keeps its initial, unlimited entry until a measurement exists.
+        let first_feedback = match self.mode {
+            SendRateMode::SlowStart(ref state) => state.time_last_doubled_ms.is_none(),
+            _ => false,
+        };
+
         let recv_limit =
-            if rate_limited {
+            if first_feedback {
+                u32::MAX
+            } else if rate_limited {
                 // If rate limited during the interval, the interval was not entirely data-limited
                 let max_val = self.recv_rate_set.rate_limited_update(now_ms, recv_rate, rtt_ms);
                 max_val.saturating_mul(2)
@@ -225,7 +235,7 @@ impl SendRateComp {
                     // Nonzero loss, initialize loss history according to loss rate and enter
                     // throughput equation phase, see section 6.3.1
 
-                    let send_rate_target = if state.time_last_doubled_ms.is_none() {
+                    let send_rate_target = if first_feedback {
                         // First feedback indicates loss
                         compute_initial_loss_send_rate(rtt_s)
                     } else {
